@@ -6,4 +6,5 @@ T0 == [k |-> "prim", prim |-> "int32", tag |-> <<0, 0, 0, 0>>, np |-> <<>>, tl2 
 TY(n) == CASE n = "int32" -> T0
 TopNames == <<>>
 AllNames == <<"int32">>
+ExtraVals(p) == {}
 ====
